@@ -97,6 +97,9 @@ impl Workload {
         if !self.tests.is_empty() && !self.progs.is_empty() {
             let t = self.tests_text().into_bytes();
             push("tests/r0_tests.json".into(), t.clone());
+            // a second test file for the same rules file (last case only): `-t <dir>` walks both
+            let more = Workload { tests: self.tests[self.tests.len() - 1..].to_vec(), ..self.clone() };
+            push("tests/r0_more_tests.json".into(), more.tests_text().into_bytes());
             push("tdir/r0.guard".into(), self.progs[0].print().into_bytes());
             push("tdir/tests/r0_tests.json".into(), t);
             if self.progs.len() > 1 {
@@ -392,6 +395,15 @@ pub fn gen_step(r: &mut Rng, wl: &Workload) -> StepT {
             _ => Mode::Exact,
         };
         let mut st = cli(&format!("test-file-{fmt}"), mode, &["test", "-r", &r0, "-t", "@/tests/r0_tests.json", "-o", fmt]);
+        if r.chance(1, 3) {
+            // a directory of test files; without -a / -m the walk order is the directory's own
+            st.argv[5] = s("@/tests");
+            st.class = format!("test-files-{fmt}");
+            match order_flag {
+                Some(f) => st.argv.push(s(f)),
+                None => st.dir_order_defined = false,
+            }
+        }
         if fmt == "single-line-summary" && r.chance(1, 3) {
             st.argv.push(s("-v"));
         }
